@@ -78,7 +78,9 @@ class C08(Property):
                        "probe.other-configuration-used-first",
                        "probe.several-dash-continuations",
                        "probe.custom-container-classes",
-                       "probe.label-handed-over-as-bytes"]
+                       "probe.label-handed-over-as-bytes",
+                       "fault.preempted-by-another-load",
+                       "probe.long-run-of-adjacent-gaps"]
 
     def expected(self, toks):
         """(expected tree with ("empty", line), sorted lines) or None."""
@@ -134,6 +136,12 @@ class C08(Property):
             kw = dialects.custom_kw(custom)
             o = core.guarded(lambda: pvl.load(io.BytesIO(text.encode()),
                                               **kw), len(text))
+        elif case.get("preempt"):
+            # another caller's complete default load happens in the middle
+            # of this one (a thread switch at line event k)
+            pk, ptext = case["preempt"]["at"], case["preempt"]["text"]
+            o = core.guarded(lambda: pvl.loads(text), len(text),
+                             preempt=(pk, lambda: pvl.loads(ptext)))
         else:
             o = dialects.load("default", text, custom=custom)
         if out is not None:
@@ -218,6 +226,19 @@ class C08(Property):
             out.inc("probe.dash-continuation-before-loss")
             if len(places) > 1:
                 out.inc("probe.several-dash-continuations")
+        gap_run = rng.random() < 0.015
+        if gap_run:
+            # a long run of adjacent parameters that all lost their values
+            # (a table whose value column was cut off)
+            nrun = rng.choice([600, 990, 1100, 1300, 2100])
+            toks = []
+            for i in range(nrun):
+                toks += [gen.Tok(gen.NAME, "K%d" % i, "name", 0, i + 1,
+                                 ("str", "K%d" % i)),
+                         gen.Tok(gen.EQ, "=", "eq", 0, i + 1),
+                         gen.Tok(gen.NUM, str(i), "value", 0, i + 1,
+                                 ("int", i))]
+            out.inc("probe.long-run-of-adjacent-gaps")
         # assignments: stmt id -> indices of value tokens, name index
         assigns = {}
         order = []
@@ -258,6 +279,8 @@ class C08(Property):
             plans.append(("subset", sorted(rng.sample(order, k))))
         if len(plans) > 40:
             plans = rng.sample(plans, 40)
+        if gap_run:
+            plans = [("gap-run", list(order)), ("gap-run", list(order[:-1]))]
         other_first = rng.choice([None, None, "ISIS", "ISIS", "PVL"])
         if other_first:
             out.inc("probe.other-configuration-used-first")
@@ -269,6 +292,7 @@ class C08(Property):
             out.inc("probe.custom-container-classes")
         route = rng.choice(["bytes", "binary-stream"]) \
             if rng.random() < 0.2 else "str"
+        preempting = rng.random() < 0.2
         if route != "str":
             out.inc("probe.label-handed-over-as-bytes")
         for kind, lose in plans:
@@ -318,6 +342,14 @@ class C08(Property):
                 case["custom"] = custom
             if route != "str":
                 case["route"] = route
+            if preempting and not custom and route == "str":
+                case["preempt"] = {
+                    "at": rng.randrange(20, 90 * len(text) + 21),
+                    "text": "\n" * rng.randrange(0, 40) + rng.choice([
+                        "P =\nQ = 1\n", "P = 1\n\n\nQ =\nR =\nEND\n",
+                        "GROUP = g\n  P =\nEND_GROUP\nQ = \"a-\n b\"\n",
+                        "P = (1, 2\n"])}
+                out.inc("fault.preempted-by-another-load")
             out.violations.extend(self.execute_case(case, out))
         if out.violations:
             out.inc("violations", len(out.violations))
@@ -339,7 +371,7 @@ class C08(Property):
             c = {"tokens": [e1.tok_json(t) for t in ts],
                  "lines": [t.line for t in ts], "text": text,
                  "lost": case.get("lost", 0)}
-            for k in ("other_first", "custom", "route"):
+            for k in ("other_first", "custom", "route", "preempt"):
                 if case.get(k):
                     c[k] = case[k]
             return c
